@@ -2,6 +2,7 @@
 # usage: tools/seedcheck.sh <Cxx> <seed-dir-with-patch.diff> : applies the seeded change to /repo, runs the quick check, reverts.
 id=$1; d=$2
 cd /repo || exit 3
+[ -z "$(git status --porcelain --untracked-files=no)" ] || { echo "REFUSING: /repo has uncommitted tracked changes (commit them first)"; exit 3; }
 git apply --check "$d/patch.diff" || { echo "PATCH DOES NOT APPLY"; exit 3; }
 git apply "$d/patch.diff"
 (GOFLAGS=-mod=mod GOPROXY=off GOSUMDB=off go build ./... 2>&1 | head -5)
